@@ -80,10 +80,16 @@ def w_val(v):
     return "s" + str(v).encode("utf-8").hex()
 
 
+def c4(cfg):
+    """(proto, identifier, credentials, password) of every service; a 5th element False marks a
+    DISABLED service (enabled=False) — the storage does not look at it, so the model does not either"""
+    return [sv[:4] for sv in cfg]
+
+
 def w_cfg(cfg):
     if not cfg:
         return "-"
-    return ",".join("%s:%s:%s:%s" % (PNAME[p], w_val(i), w_val(c), w_val(pw)) for p, i, c, pw in cfg)
+    return ",".join("%s:%s:%s:%s" % (PNAME[p], w_val(i), w_val(c), w_val(pw)) for p, i, c, pw in c4(cfg))
 
 
 def w_content(content):
@@ -147,8 +153,9 @@ def make_conf(cfg, address="127.0.0.1"):
     from pyatv.const import Protocol
 
     c = conf.AppleTV(IPv4Address(address), "verif")
-    for p, i, cr, pw in cfg:
-        c.add_service(conf.ManualService(i, getattr(Protocol, p), 0, {}, cr, pw))
+    for sv in cfg:
+        p, i, cr, pw = sv[:4]
+        c.add_service(conf.ManualService(i, getattr(Protocol, p), 0, {}, cr, pw, enabled=(len(sv) < 5 or bool(sv[4]))))
     return c
 
 
@@ -288,7 +295,7 @@ class Oracle:
         self.problems.append((sig, observed, required, what))
 
     def check_get(self, before, before_ids, cfg, result, storage):
-        cids = [i for _p, i, _c, _pw in cfg if i is not None]
+        cids = [i for _p, i, _c, _pw in c4(cfg) if i is not None]
         sharing = [o for o, oi in zip(before, before_ids) if set(oi) & set(cids)]
         was_stored = any(result is o for o in before)
         if was_stored:
@@ -317,13 +324,30 @@ class Oracle:
                 self.problem("lookup-complete:storage-grew", len(storage.settings), len(before),
                              "lookup of a known device changed the number of stored devices")
 
+    def check_known(self, cfg, obj, before, result_of):
+        """right after update(cfg) / a get(cfg) that created `obj`, every identifier of cfg (of
+        enabled and disabled services alike) identifies that device: a configuration consisting
+        of that one identifier gets `obj` — or an object stored before it that shares the
+        identifier (bridging) — and nothing new is created."""
+        for ident in sorted({i for _p, i, _c, _pw in c4(cfg) if i is not None}):
+            got, created = result_of(ident)
+            earlier = [o for o in before if ident in ids_of(o)]
+            if created:
+                self.problem("lookup-complete:identifier-of-stored-device-unknown", {"identifier": ident, "config": c4(cfg)},
+                             "the object of the device",
+                             "a configuration sharing an identifier with a device that was just stored does not get that "
+                             "device's object: a new, blank object is created")
+            elif got is not obj and not any(got is o for o in earlier):
+                self.problem("lookup-complete:identifier-of-stored-device-gives-other-object", {"identifier": ident, "config": c4(cfg)},
+                             "the object of the device", "a configuration sharing an identifier with a device that was just stored gets another object")
+
     def check_applied(self, cfg, after, storage, where):
         """credentials saved for one device are never applied to another: every credential /
         password a caller put on a configuration (value differs from what the configuration
         came with) must be the value stored for a device sharing an identifier with it."""
-        cids = {i for _p, i, _c, _pw in cfg if i is not None}
+        cids = {i for _p, i, _c, _pw in c4(cfg) if i is not None}
         sharing = [o for o in storage.settings if set(ids_of(o)) & cids]
-        orig = {p: (c, pw) for p, _i, c, pw in cfg}
+        orig = {p: (c, pw) for p, _i, c, pw in c4(cfg)}
         for p, _i, c, pw in after:
             for field, now, was in (("credentials", c, orig.get(p, (None, None))[0]), ("password", pw, orig.get(p, (None, None))[1])):
                 if now == was:
@@ -432,9 +456,16 @@ def execute(kind, ops, loop):
                     before_ids = [ids_of(o) for o in before]
                     conf_obj = make_conf(op[1])
                     try:
+                        def result_of(ident):
+                            n = len(storage.settings)
+                            g = loop.run_until_complete(storage.get_settings(make_conf([["DMAP", ident, None, None]])))
+                            return g, len(storage.settings) != n
+
                         if kind_op == "get":
                             r = loop.run_until_complete(storage.get_settings(conf_obj))
                             number()
+                            if not any(r is o for o in before):
+                                oracle.check_known(op[1], r, before, result_of)
                             res = "h%d" % handles.get(id(r), -1)
                             oracle.check_get(before, before_ids, op[1], r, storage)
                             # BaseConfig.apply with the object handed out
@@ -445,6 +476,11 @@ def execute(kind, ops, loop):
                         else:
                             loop.run_until_complete(storage.update_settings(conf_obj))
                             res = "ok"
+                            cids = {i for _p, i, _c, _pw in c4(op[1]) if i is not None}
+                            tgt = next((o for o in storage.settings if set(ids_of(o)) & cids), None)
+                            if tgt is not None:
+                                pos = [n for n, o in enumerate(storage.settings) if o is tgt][0]
+                                oracle.check_known(op[1], tgt, list(storage.settings)[:pos], result_of)
                     except Exception as e:
                         res = "err:" + type(e).__name__
                 elif kind_op == "scan":
@@ -466,7 +502,7 @@ def execute(kind, ops, loop):
                     for n in ret_idx:
                         if n < 0:
                             continue
-                        cids = {i for _p, i, _c, _pw in op[1][n] if i is not None}
+                        cids = {i for _p, i, _c, _pw in c4(op[1][n]) if i is not None}
                         hit = next((o for o in storage.settings if set(ids_of(o)) & cids), None)
                         if hit is not None:
                             applies.append((content_of(hit), op[1][n], services_of(confs[n])))
@@ -520,7 +556,12 @@ def execute(kind, ops, loop):
                         set_key(objs[op[1]], op[2], op[3])
                     res = "ok"
                 elif kind_op == "save":
-                    loop.run_until_complete(storage.save())
+                    try:
+                        loop.run_until_complete(storage.save())
+                    except Exception as e:
+                        oracle.problem("roundtrip:save-raises", type(e).__name__ + ": " + str(e)[:120], "save() stores the settings",
+                                       "save() raises for settings that were stored in the storage")
+                        raise
                     oracle.mark(storage)
                     res = "ok"
                     if kind == "file":
@@ -628,6 +669,8 @@ def gen_cfg(rng, mode=None):
     for j, p in enumerate(protos):
         ident = rng.choice(POOLS[d]) if (j == 0 or rng.chance(0.8)) else None
         cfg.append([p, ident, rng.choice(CREDS), rng.choice(CREDS[:7])])
+        if rng.chance(0.2):
+            cfg[-1].append(False)          # a disabled service (e.g. MRP on tvOS 15+): still identifies the device
     return cfg
 
 
@@ -677,7 +720,7 @@ def gen_history(rng, kind, length):
             if c < 0.5:
                 n = rng.choice([2, 3, 3, 4])
                 cfgs = [gen_cfg(rng, rng.choice(["dev"] * 6 + ["noid", "bridge"])) for _ in range(n)]
-                allids = [i for cf in cfgs for _p, i, _c, _pw in cf if i]
+                allids = [i for cf in cfgs for _p, i, _c, _pw in c4(cf) if i]
                 filt = None if (rng.chance(0.25) or not allids) else rng.sample(allids, min(len(allids), rng.choice([1, 1, 2])))
                 ops.append(["scan", cfgs, filt])
                 nobj += n
@@ -803,9 +846,83 @@ def run_histories(ctx, cases):
             ctx.fail(sig, {"kind": kind, "ops": ops[:idx + 1]}, observed, required, what)
 
 
+# --------------------------------------------------------------------------- the same histories in another process locale
+
+CHILD = r"""
+import sys, json, asyncio, locale
+sys.path[:0] = [%r, %r]
+from harness import c14
+kind, ops = json.loads(sys.stdin.read())
+loop = asyncio.new_event_loop()
+obs, problems, applies, final = c14.execute(kind, ops, loop)
+loop.run_until_complete(loop.shutdown_default_executor()); loop.close()
+print(json.dumps({"enc": locale.getpreferredencoding(False), "problems": problems, "final": final,
+                  "obs": [[o["res"], o["changed"], o["handles"], o["content"], o["reloaded"]] for o in obs]}))
+"""
+C_ENV = {"LC_ALL": "C", "LANG": "C", "PYTHONUTF8": "0", "PYTHONCOERCECLOCALE": "0", "PYTHONIOENCODING": "ascii:backslashreplace"}
+
+
+def execute_child(kind, ops):
+    """execute() in a child interpreter whose locale encoding is not UTF-8 (LC_ALL=C, UTF-8 mode and
+    locale coercion off).  Returns the child's result dict or {"error": ...}."""
+    import subprocess
+    import sys
+
+    from harness.core import REPO, VERIF
+
+    env = dict({k: v for k, v in os.environ.items() if not k.startswith("LC_") and k not in ("LANG", "PYTHONUTF8")}, **C_ENV)
+    try:
+        p = subprocess.run([sys.executable, "-c", CHILD % (REPO, VERIF)], input=json.dumps([kind, ops]), env=env,
+                           capture_output=True, text=True, timeout=120)
+        return json.loads(p.stdout.strip().split("\n")[-1])
+    except Exception as e:
+        return {"error": "%s: %s" % (type(e).__name__, str(e)[:200])}
+
+
+SUR = "a\ud800b"          # a lone surrogate: representable in a Python str, round-trips through the pinned code
+
+
+def locale_histories():
+    h = fixed_histories()
+    return [("file", h[2]),
+            ("file", [["update", [["AirPlay", A0, UNI, "p\u00e4ss"], ["Companion", B1, "\u4e2d\u6587", None]]], ["mutate", 0, "info.name", "Wohnzimmer \u00fc\U0001F4FA"],
+                      ["save"], ["load"], ["get", [["Companion", B1, None, None]]], ["mutate", 1, "protocols.raop.password", "\u00e9"], ["save"]]),
+            ("file", [["update", [["MRP", A1, SUR, None]]], ["mutate", 0, "info.name", SUR + UNI], ["save"], ["load"], ["save"]])]
+
+
+def run_locale(ctx, cases):
+    loop = asyncio.new_event_loop()
+    try:
+        for kind, ops in cases:
+            here = execute(kind, ops, loop)
+            child = execute_child(kind, ops)
+            case = {"kind": kind, "ops": ops, "env": "LC_ALL=C PYTHONUTF8=0 PYTHONCOERCECLOCALE=0"}
+            ctx.case(["locale", kind, ops], True)
+            ctx.note("locale-child:" + str(child.get("enc", child.get("error", "?")))[:40])
+            if "error" in child:
+                ctx.disagree(case, child["error"], "n/a", where="child process (locale)")
+                continue
+            for idx, sig, observed, required, what in child["problems"]:
+                ctx.fail(sig + ":non-utf8-locale", dict(case, ops=ops[:idx + 1]), observed, required,
+                         what + " (process locale encoding %s)" % child["enc"])
+            mine = json.loads(json.dumps([[o["res"], o["changed"], o["handles"], o["content"], o["reloaded"]] for o in here[0]]))
+            if not child["problems"] and (mine != child["obs"] or json.loads(json.dumps(here[3])) != child["final"]):
+                first = next((n for n, (a, b) in enumerate(zip(mine, child["obs"])) if a != b), len(mine))
+                ctx.fail("locale:behaviour-depends-on-process-locale", dict(case, ops=ops[:first + 1]),
+                         child["obs"][first] if first < len(child["obs"]) else child["final"], mine[first] if first < len(mine) else here[3],
+                         "the same history behaves differently in a process whose locale encoding is %s" % child["enc"])
+            for idx, sig, observed, required, what in here[1]:
+                ctx.fail(sig, {"kind": kind, "ops": ops[:idx + 1]}, observed, required, what)
+    finally:
+        loop.run_until_complete(loop.shutdown_default_executor())
+        loop.close()
+
+
 def run(ctx, only=None):
     if only is not None:
         return run_histories(ctx, only)
+    lrng = ctx.rng.fork("locale")
+    run_locale(ctx, locale_histories() + [("file", gen_history(lrng, "file", 8)) for _ in range(ctx.scale(2, 12))])
     cases = []
     for h in fixed_histories():
         cases.append(("file", h))
@@ -817,8 +934,23 @@ def run(ctx, only=None):
     run_histories(ctx, cases)
 
 
-def _fails(ctx, kind, ops, sig):
-    c2 = type(ctx)(ctx.prop, ctx.tier, ctx.seed, ctx.driver.driver_rel)
+def _fails(ctx, kind, ops, sig, env=None):
+    if env:
+        child = execute_child(kind, ops)
+        probs = child.get("problems", [])
+        if "error" in child:
+            return False
+        if (sig and sig.startswith("locale:")) or (not sig and not probs):
+            loop = asyncio.new_event_loop()
+            try:
+                here = execute(kind, ops, loop)
+            finally:
+                loop.run_until_complete(loop.shutdown_default_executor())
+                loop.close()
+            mine = json.loads(json.dumps([[o["res"], o["changed"], o["handles"], o["content"], o["reloaded"]] for o in here[0]]))
+            return mine != child["obs"] or json.loads(json.dumps(here[3])) != child["final"]
+        base = sig[:-len(":non-utf8-locale")] if sig and sig.endswith(":non-utf8-locale") else sig
+        return any(p[1] == base for p in probs) if base else bool(probs)
     loop = asyncio.new_event_loop()
     try:
         _obs, problems, _a, _f = execute(kind, ops, loop)
@@ -830,7 +962,7 @@ def _fails(ctx, kind, ops, sig):
 
 def replay(ctx, failure):
     case = failure["case"]
-    return _fails(ctx, case["kind"], case["ops"], None)
+    return _fails(ctx, case["kind"], case["ops"], None, case.get("env"))
 
 
 def shrink(ctx, failure):
@@ -840,7 +972,7 @@ def shrink(ctx, failure):
     while i < len(ops) - 1 and len(ops) > 1:
         cand = ops[:i] + ops[i + 1:]
         try:
-            if _fails(ctx, case["kind"], cand, sig):
+            if _fails(ctx, case["kind"], cand, sig, case.get("env")):
                 ops = cand
                 continue
         except Exception:
